@@ -156,6 +156,10 @@ def gen_cases(ctx):
             cases += [case("polymer", s), case("remove", spiral(n))]
     if ctx.quick:
         cases += [case("remove", serpentine(7))]
+    # paths much longer than the box diameter (path length ~ n^2/2 against nx+ny+nz): a sweep count bounded by the box size is not enough
+    cases += [case("remove", serpentine(12)), case("remove_module", serpentine(12)), case("remove", spiral(13, 3))]
+    if not ctx.quick:
+        cases += [case("connect", serpentine(12)), case("air", invert(serpentine(11))), case("remove", serpentine(14))]
     for n in ctx.pick([3], [2, 3, 5]):
         cases += [case("remove", staircase(n))]
     cases += [case("remove", hook()), case("polymer", hook())] + [case("connect", m) for m in DETACHED]
